@@ -335,6 +335,9 @@ func lookup(ex *exec, instr *ssa.Lookup, x, idx value) value {
 // numeric datatypes and strings.  Both operands must have identical
 // dynamic type.
 func binop(op token.Token, t types.Type, x, y value) value {
+	if isBstr(x) || isBstr(y) {
+		return bstrBinop(op, x, y)
+	}
 	if isSym(x) || isSym(y) {
 		return symBinop(op, t, x, y)
 	}
@@ -961,6 +964,9 @@ func callBuiltin(caller *frame, callpos token.Pos, fn *ssa.Builtin, args []value
 			}
 			return arg0
 		}
+		if s, ok := args[1].(bstr); ok {
+			return append(args[0].([]value), []value(s)...)
+		}
 		// append([]T, ...[]T) []T
 		return append(args[0].([]value), args[1].([]value)...)
 
@@ -969,6 +975,9 @@ func callBuiltin(caller *frame, callpos token.Pos, fn *ssa.Builtin, args []value
 		if _, ok := src.(string); ok {
 			params := fn.Type().(*types.Signature).Params()
 			src = conv(params.At(0).Type(), params.At(1).Type(), src)
+		}
+		if b, ok := src.(bstr); ok {
+			src = []value(b)
 		}
 		return copy(args[0].([]value), src.([]value))
 
@@ -1006,6 +1015,8 @@ func callBuiltin(caller *frame, callpos token.Pos, fn *ssa.Builtin, args []value
 	case "len":
 		switch x := args[0].(type) {
 		case string:
+			return len(x)
+		case bstr:
 			return len(x)
 		case array:
 			return len(x)
@@ -1161,6 +1172,19 @@ func conv(t_dst, t_src types.Type, x value) value {
 	if sx, ok := x.(*sym); ok {
 		return symConvInt(t_dst, t_src, sx)
 	}
+	if bx, ok := x.(bstr); ok {
+		switch d := ut_dst.(type) {
+		case *types.Basic:
+			if d.Kind() == types.String {
+				return bx
+			}
+		case *types.Slice:
+			if eb, ok := d.Elem().Underlying().(*types.Basic); ok && eb.Kind() == types.Byte {
+				return append([]value(nil), []value(bx)...)
+			}
+		}
+		panic(unsupported("conversion of a byte-sequence string to " + t_dst.String()))
+	}
 
 	// Destination type is not an "untyped" type.
 	if b, ok := ut_dst.(*types.Basic); ok && b.Info()&types.IsUntyped != 0 {
@@ -1202,12 +1226,7 @@ func conv(t_dst, t_src types.Type, x value) value {
 		// []byte or []rune -> string
 		switch ut_src.Elem().Underlying().(*types.Basic).Kind() {
 		case types.Byte:
-			x := x.([]value)
-			b := make([]byte, 0, len(x))
-			for i := range x {
-				b = append(b, x[i].(byte))
-			}
-			return string(b)
+			return mkBstr(x.([]value))
 
 		case types.Rune:
 			x := x.([]value)
